@@ -27,7 +27,7 @@ CLAIMED = {
     "C07": ("5/C07", "Seeded search over session histories (fast/slow requests, server-generated 404s, partial heads, pipelined pairs, "
             "concurrent HTTP/2 streams) with pauses on a grid around each keep_alive_timeout value, peer loss at every phase and "
             "shutdown while idle; close instants are compared with the admissible window derived from observed idle/busy "
-            "intervals, handler and socket lifetimes with a 0.1 s promptness bound. One defect is recorded as a known finding (F10).",
+            "intervals, handler and socket lifetimes with a 0.1 s promptness bound; every third run adds an open WebSocket (with a finished sibling stream on HTTP/2) that must survive silence.",
             "applications return as soon as they see the disconnect; handler lifetimes are observed through a run-time wrapper around TCPServer.run"),
     "C10": ("5/C10", "Seeded search over WebSocket message sequences (types, sizes around the limit counted in characters/bytes, "
             "fragmentation inside code points, pings between fragments, permessage-deflate) x carrier (HTTP/1.1 upgrade, HTTP/2 "
